@@ -225,7 +225,7 @@ func checkMain(args []string) int {
 	l := load()
 	pat := regexp.MustCompile("^" + prop + "_")
 	hs := runEngine(l, RunConfig{Pattern: pat, Tier: tier, Workers: envInt("VERIF_WORKERS", runtime.NumCPU()), MaxPaths: cfg.maxPaths,
-		Timeout: cfg.timeout, Solver: solver, WitnessN: cfg.witnessN})
+		Timeout: cfg.timeout, Solver: solver, WitnessN: cfg.witnessN, Seed: seed})
 	if len(hs) == 0 {
 		fmt.Printf("INCONCLUSIVE property=%s no harness available (dropped: %v)\n", prop, l.dropped)
 		return 2
